@@ -2109,3 +2109,33 @@ mod tests {
         assert_eq!(stream.write(&data), Err(WriteError::Blocked));
     }
 }
+
+#[cfg(feature = "__verif")]
+impl StreamsState {
+    /// Read-only snapshot of stream accounting, for the verification harness
+    pub(in crate::connection) fn verif_probe(&self) -> crate::connection::StreamsProbe {
+        crate::connection::StreamsProbe {
+            max_data: self.max_data,
+            data_sent: self.data_sent,
+            unacked_data: self.unacked_data,
+            send_window: self.send_window,
+            local_max_data: self.local_max_data,
+            sent_max_data: self.sent_max_data.into_inner(),
+            data_recvd: self.data_recvd,
+            receive_window: self.receive_window,
+            stream_receive_window: self.stream_receive_window,
+            recv_buffered: self
+                .recv
+                .values()
+                .filter_map(|x| x.as_ref()?.as_open_recv())
+                .map(|r| r.assembler.verif_buffered() as u64)
+                .sum(),
+            next: self.next,
+            max: self.max,
+            max_remote: self.max_remote,
+            next_remote: self.next_remote,
+            allocated_remote_count: self.allocated_remote_count,
+            send_streams: self.send_streams,
+        }
+    }
+}
